@@ -134,11 +134,28 @@ static int esx_history(uint64_t s, uint16_t *out) {
     return n;
 }
 
+static size_t esx_token_prefix_len;
+static int esx_token_prefix_n;
 static void esx_make_token(const struct esx_model *m, const uint16_t *h, int n, int extra) {
     size_t o = (size_t)snprintf(esx_token, sizeof(esx_token), "%s:", m->name);
     for (int i = 0; i < n && o + 8 < sizeof(esx_token); ++i) o += (size_t)snprintf(esx_token + o, sizeof(esx_token) - o, "%s%d", i ? "." : "", h[i]);
+    esx_token_prefix_len = o;
+    esx_token_prefix_n = n;
     if (extra >= 0 && o + 8 < sizeof(esx_token)) snprintf(esx_token + o, sizeof(esx_token) - o, "%s%d", n ? "." : "", extra);
     v_crumb("%s", esx_token);
+}
+/* cheap per-operation update: the prefix part of the token is already in place */
+static void esx_token_set_last(int extra) {
+    size_t o = esx_token_prefix_len;
+    if (extra >= 0 && o + 8 < sizeof(esx_token))
+        snprintf(esx_token + o, sizeof(esx_token) - o, "%s%d", esx_token_prefix_n ? "." : "", extra);
+    else
+        esx_token[o] = 0;
+    char *c = v_sh->slot[v_worker].crumb;
+    size_t l = strlen(esx_token);
+    if (l >= sizeof(v_sh->slot[v_worker].crumb)) l = sizeof(v_sh->slot[v_worker].crumb) - 1;
+    memcpy(c, esx_token, l);
+    c[l] = 0;
 }
 
 static void esx_describe(const struct esx_model *m, const uint16_t *h, int n, char *buf, size_t cap) {
@@ -165,9 +182,10 @@ static void esx_expand_item(uint64_t idx, void *ctx) {
     int n = esx_history(s, h);
     esx_cur = m;
     bool checked_canon = false;
+    esx_make_token(m, h, n, -1);
     for (int o = 0; o < m->nops; ++o) {
         esx_failed = 0;
-        esx_make_token(m, h, n, -1);
+        esx_token_set_last(-1);
         m->reset();
         bool ok = true;
         esx_in_replay = 1;
@@ -194,7 +212,7 @@ static void esx_expand_item(uint64_t idx, void *ctx) {
             checked_canon = true;
         }
         if (m->enabled(o)) {
-            esx_make_token(m, h, n, o);
+            esx_token_set_last(o);
             V_COUNT("transitions", 1);
             m->apply(o);
             if (!esx_failed) {
